@@ -333,8 +333,11 @@ def run_domain(prop, tier, seed, dom, exe, n, known, shrink_ok, base_answers):
     # corpus (minimal histories of past findings) first, then the structured random stream
     lines = [X.ascending_widen(l) if dom.get("asc_widen") else l for l in X.CORPUS]
     lines += X.histories(seed + 1000 + zlib_id(prop), prop, n, **hopts)
-    if tier != "quick" and not dom["rel"]:
-        lines += X.histories(seed + 2000, prop, n // 4, big=True, **hopts)   # arbitrary-precision bounds
+    if tier != "quick":
+        # constants up to 2^62: arbitrary precision in the non-relational domains; the graph
+        # domains with DefaultParams compute on unchecked int64 weights (known finding),
+        # SafeInt64DefaultParams stops with CRAB_ERROR on overflow
+        lines += X.histories(seed + 2000, prop, n // (8 if dom["rel"] else 4), big=True, **hopts)
     answers = run_cases(exe, name, lines, os.path.join(outd, stream + ".cases"))
     examine(res, prop, dom, exe, stream, "hist", lines, answers, orc, known, shrink_ok)
     if prop == "C16":
